@@ -29,13 +29,14 @@ func namePool() []tname {
 func addNames() []tname {
 	ns := []tname{}
 	for _, s := range []string{"Foo::Zed", "foo::zed", "Foo::Car", "Foo::Bus", "FOO::BUS", "Foo::Bar::Car", "Foo::Bar::A", "Foo::Bar", "A", "A::B", "A::Sub", "A::Sub::X", "a::sub::x", "A::Sub::Y",
-		"A::Aa", "Foo::Nope", "Foo::Other", "Foo", "Car", "Bus", "X", "Sub::X"} {
+		"A::Aa", "Foo::Nope", "Foo::Other", "Foo", "Car", "Bus", "X", "Sub::X",
+		"Zoo", "Zoo::Cage", "Cage", "Keeper", "zoo::keeper", "Zoo::Broken", "Broken", "Zoo::Sub::X", "Zoo::Sub", "Zed", "Foo::Broken", "B"} {
 		ns = append(ns, tn("type", s))
 	}
-	for _, s := range []string{"Foo::Bus", "foo::bus", "A::Sub::X", "A::Aa", "Foo::Nope", "Car", "Foo::Car", "Foo::Zed", "Bus", "X"} {
+	for _, s := range []string{"Foo::Bus", "foo::bus", "A::Sub::X", "A::Aa", "Foo::Nope", "Car", "Foo::Car", "Foo::Zed", "Bus", "X", "Zoo::Cage", "Cage"} {
 		ns = append(ns, tn("constructor", s))
 	}
-	for _, s := range []string{"Foo::Bus", "Bus", "foo::bus", "A::Sub::X", "Sub::X", "X", "A::Aa", "Car", "Foo::Car"} {
+	for _, s := range []string{"Foo::Bus", "Bus", "foo::bus", "A::Sub::X", "Sub::X", "X", "A::Aa", "Car", "Foo::Car", "Zoo::Keeper", "Keeper"} {
 		ns = append(ns, tn("allocator", s))
 	}
 	return ns
@@ -137,6 +138,23 @@ func (r *runner) corpus() {
 		seq(newDep(), newParented(1), newTypeSet(2, 0), load(3, tn("type", "Foo::Bus")), load(3, tn("type", "Foo::Foo::Bus")), addTypes(3, 0), load(3, tn("type", "Foo::Bus")), load(3, tn("type", "Foo::Foo::Bus")),
 			getEntry(2, tn("type", "Foo::Bus")), getEntry(2, tn("type", "Foo::Zed")), addTypes(3, 1), load(3, tn("type", "Foo::Bar::Car")), load(3, tn("type", "Bar::Car")), discover(3, allPred()), discover(2, allPred())),
 		seq(newParented(0), fork(1), load(2, tn("type", "Foo::Bus")), addTypes(2, 0, 5), load(2, tn("type", "Foo::Bus")), load(2, tn("type", "Car")), load(1, tn("type", "Foo::Bus")), discover(2, nameLower("foo::bus"))),
+		// px.AddTypes that is rejected while the members of the type set are resolved (seeded change C12-m5: the context was left on
+		// the type-set loader): the same context and forks of it afterwards; a name bound before keeps its value, the names of the
+		// rejected set stay unresolvable; then the good set under the same name
+		seq(newDep(), newParented(1), fork(2), def(3, tn("type", "Cage"), 11), load(3, tn("type", "Cage")), load(3, tn("type", "Keeper")), addTypes(3, 8),
+			load(3, tn("type", "Cage")), load(3, tn("type", "Keeper")), has(3, tn("type", "Keeper")), load(3, tn("type", "Zoo::Keeper")), load(3, tn("type", "Zoo")),
+			discover(3, allPred()), addTypes(3, 10), load(3, tn("type", "Zoo::Keeper")), load(3, tn("type", "Keeper")), load(3, tn("type", "Cage")), discover(3, allPred())),
+		seq(newDep(), newParented(1), addTypes(2, 8), fork(2), load(3, tn("type", "Keeper")), load(2, tn("type", "Keeper")), newParented(2), load(4, tn("type", "Cage")),
+			addTypes(3, 10), load(3, tn("type", "Zoo::Cage")), load(2, tn("type", "Zoo::Cage")), discover(3, allPred())),
+		// ... in a nested set (two DoWithLoader calls running), after other types of the same call, through a type-set loader's context
+		cat(chain, addTypes(3, 9), load(3, tn("type", "X")), load(3, tn("type", "Zoo::Sub::X")), load(3, tn("type", "Cage")), fork(3), load(4, tn("type", "Sub::X")), newParented(3),
+			addTypes(3, 9), addTypes(3, 2), load(3, tn("type", "A::Sub::X")), discover(3, allPred()), discover(4, allPred())),
+		cat(chain, addTypes(2, 5, 0, 8, 6), load(2, tn("type", "Car")), load(2, tn("constructor", "Car")), load(2, tn("type", "Foo::Bus")), load(2, tn("type", "Bus")), load(2, tn("type", "Cage")),
+			load(2, tn("type", "Foo")), addTypes(2, 0), load(2, tn("type", "Foo::Bus")), load(2, tn("type", "Bus")), newParented(2), fork(2), load(5, tn("type", "Zed")), discover(2, allPred())),
+		cat(chain, addTypes(2, 0), addTypes(2, 11), load(2, tn("type", "Zed")), load(2, tn("type", "Bus")), load(2, tn("type", "Foo::Bus")), has(2, tn("type", "Zed")), addTypes(2, 12),
+			load(2, tn("type", "B")), load(2, tn("type", "Car")), addTypes(2, 2), load(2, tn("type", "A::B")), load(2, tn("type", "B")), fork(2), load(4, tn("type", "B"))),
+		seq(newDep(), newParented(1), newTypeSet(2, 0), addTypes(3, 8), load(3, tn("type", "Keeper")), load(3, tn("type", "Car")), load(3, tn("type", "Zoo::Cage")), addTypes(3, 11),
+			load(3, tn("type", "Zed")), load(3, tn("type", "Broken")), addTypes(3, 10), load(3, tn("type", "Zoo::Cage")), getEntry(2, tn("type", "Zoo::Cage")), discover(3, allPred())),
 		// load-entry / get-entry distinguish an absent entry from a cached miss; both are misses
 		cat(chain, loadEntry(3, a), getEntry(3, a), load(3, a), getEntry(3, a), loadEntry(3, a), getEntry(1, a), getEntry(2, a)),
 	}
@@ -156,26 +174,34 @@ type shape struct {
 	vals    []int
 	preds   []predT
 	adds    [][]int // AddTypes argument lists of the alphabet
+	loadAll bool    // the observers load every name through every loader (not only the innermost)
+	forks   []int   // the alphabet holds a Fork of these loaders followed by a Load of every name through the fork
 }
 
 func shapes() []shape {
 	return []shape{
 		{"fresh-chain", 0, true, seq(newDep(), newParented(1), newParented(2)), []int{1, 2, 3}, []tname{tn("x", "a"), tn("x", "A"), tn("x", "b")}, []int{0, 1},
-			[]predT{allPred()}, nil},
+			[]predT{allPred()}, nil, false, nil},
 		{"static-chain", 1, true, seq(newParented(0), fork(1)), []int{1, 2}, []tname{tn("type", "Integer"), tn("type", "integer"), tn("x", "a")}, []int{8, 10},
-			[]predT{nsPred("x"), nameLower("integer")}, nil},
+			[]predT{nsPred("x"), nameLower("integer")}, nil, false, nil},
 		{"typeset-leaf", 0, true, seq(newDep(), newParented(1), newTypeSet(2, 0)), []int{2, 3}, []tname{tn("type", "Car"), tn("type", "foo::car"), tn("type", "Foo::Nope"), tn("type", "nope")},
-			[]int{8, 10}, []predT{allPred()}, nil},
+			[]int{8, 10}, []predT{allPred()}, nil, false, nil},
 		{"typeset-inner", 0, false, seq(newDep(), newTypeSet(1, 0), newParented(2)), []int{1, 2, 3}, []tname{tn("type", "car"), tn("type", "Foo::Car"), tn("type", "b")}, []int{4, 5},
-			[]predT{allPred()}, nil},
+			[]predT{allPred()}, nil, false, nil},
 		{"eq-values", 0, false, seq(newDep(), newParented(1)), []int{1, 2}, []tname{tn("x", "a"), tn("type", "A")}, []int{4, 5, 6, 8, 9},
-			[]predT{allPred()}, nil},
+			[]predT{allPred()}, nil, false, nil},
 		// px.AddTypes of a type set (members, object member with constructor) and of an object type, between lookups and
 		// definitions of the names they bind
 		{"addtypes-chain", 0, false, seq(newDep(), newParented(1), newParented(2)), []int{2, 3},
-			[]tname{tn("type", "Foo::Bus"), tn("constructor", "foo::bus"), tn("type", "Foo")}, []int{10}, []predT{allPred()}, [][]int{{0}, {6}, {4}}},
+			[]tname{tn("type", "Foo::Bus"), tn("constructor", "foo::bus"), tn("type", "Foo")}, []int{10}, []predT{allPred()}, [][]int{{0}, {6}, {4}}, false, nil},
 		{"addtypes-nested", 1, true, seq(newDep(), newParented(1), newTypeSet(2, 2)), []int{2, 3},
-			[]tname{tn("type", "A::Sub::X"), tn("type", "A::Sub"), tn("constructor", "A::Sub::X"), tn("type", "A::B"), tn("type", "Sub::X")}, []int{8}, []predT{allPred()}, [][]int{{2}, {2, 5}}},
+			[]tname{tn("type", "A::Sub::X"), tn("type", "A::Sub"), tn("constructor", "A::Sub::X"), tn("type", "A::B"), tn("type", "Sub::X")}, []int{8}, []predT{allPred()}, [][]int{{2}, {2, 5}}, false, nil},
+		// px.AddTypes that is rejected (a member of the set cannot be resolved; nested), the good set of the same name, lookups and
+		// definitions of the members' names - unqualified too - through the same contexts and through forks made afterwards
+		{"addtypes-rejected", 0, false, seq(newDep(), newParented(1), fork(2)), []int{2, 3},
+			[]tname{tn("type", "Cage"), tn("type", "Zoo::Keeper")}, []int{11}, []predT{allPred()}, [][]int{{8}, {10}}, true, []int{3}},
+		{"addtypes-rejected-mixed", 1, true, seq(newDep(), newParented(1), newTypeSet(2, 0)), []int{2, 3},
+			[]tname{tn("type", "Zed"), tn("type", "Foo::Bus"), tn("type", "Bus")}, []int{10}, []predT{allPred()}, [][]int{{11}, {0}, {5, 11}, {12}}, true, []int{2, 3}},
 	}
 }
 
@@ -194,6 +220,9 @@ func (s shape) alphabet() []opT {
 			al = append(al, addTypes(l, a...))
 		}
 	}
+	for _, l := range s.forks {
+		al = append(al, fork(l))
+	}
 	return al
 }
 
@@ -209,6 +238,13 @@ func (s shape) observers() []opT {
 		}
 	}
 	last := s.loaders[len(s.loaders)-1]
+	if s.loadAll {
+		for _, l := range s.loaders[:len(s.loaders)-1] {
+			for _, n := range s.names {
+				ops = append(ops, load(l, n))
+			}
+		}
+	}
 	for _, n := range s.names {
 		ops = append(ops, load(last, n))
 	}
@@ -253,6 +289,16 @@ func (r *runner) exhaustive() {
 			if len(seqn) == l {
 				idx++
 				ops := cat(s.setup, seqn...)
+				// the loaders of the forks made on the way: every name through each of them
+				nl := len(s.setup) + 1
+				for _, o := range seqn {
+					if o.Kind == "Fork" {
+						for _, n := range s.names {
+							ops = append(ops, load(nl, n))
+						}
+						nl++
+					}
+				}
 				ops = append(ops, obs...)
 				r.check(ops, cf, idx%stride == 0, "exhaustive."+s.name)
 				return
